@@ -583,6 +583,17 @@ def required_variables(sym):
                 need(out.get('returned') and out.get('asked'), f'{cname}._required_variables_from_child_: a path does not ask the parent / return')
                 tab[(child == 'left', wt)] = (bool(out.get('adds_right')), out['parent_arg'])
         res[cname] = tab
+    # ForAll: the passes for the different universal values are intersected on EVERY variable of the condition: its override adds them
+    fa = find(sym, ast.ClassDef, 'ForAll')
+    ov = [n for n in fa.body if isinstance(n, ast.FunctionDef) and n.name == '_required_variables_from_child_']
+    if not ov:
+        res['forall_adds_condition_variables'] = False
+    else:
+        b = [ast.dump(x) for x in body_wo_doc(ov[0])]
+        need(b == [D("required_vars = super()._required_variables_from_child_(child, when_true)"),
+                   D("required_vars.update(self.condition._unique_variables_)"), D("return required_vars")],
+             'ForAll._required_variables_from_child_: not `what a binary operator requires, plus every variable of the condition`')
+        res['forall_adds_condition_variables'] = True
     return res
 
 
@@ -899,6 +910,8 @@ def emit(d):
                 for wt in (True, False, None):
                     o.append(f"  | {'true' if il else 'false'}, {ob(wt)} => {show(rq[cname][(il, wt)][idx])}")
             o.append("  end.")
+    o.append("(* ForAll._required_variables_from_child_: every variable of the condition is required from it (the passes are intersected on them) *)")
+    o.append(f"Definition forall_adds_condition_variables : bool := {'true' if rq['forall_adds_condition_variables'] else 'false'}.")
     o.append("")
     o.append("(* SymbolicExpression._is_duplicate_output_, SeenSet.add, SeenSet.check have the statements Dedup.dup_check transcribes (pinned) *)")
     o.append(f"Definition dedup_site_as_modelled : bool := {'true' if ds else 'false'}.")
